@@ -27,6 +27,8 @@ CONSTANTS RPEs,          \* candidate roundsPerEpoch
           StartEpochs,   \* candidate Epoch constructor arguments
           MaxRound,      \* rounds fed to Update stay <= MaxRound
           MaxSkip,       \* Update may skip up to MaxSkip rounds
+          MaxEpoch,      \* exploration stops when the epoch reaches MaxEpoch (the code as it is can start
+                         \* epochs without the round advancing, so rounds alone do not bound the model)
           ForceRounds,   \* rounds requested through ForceEpochStart (any: past, future, huge)
           Nonces,        \* nonces passed to Update
           W,             \* modulus of the unsigned arithmetic (stands for 2^64)
@@ -43,10 +45,12 @@ VARIABLES rpe, min,      \* configuration (chosen in Init)
           next,          \* trigger.nextEpochStartRound (Disabled = math.MaxUint64)
           trig,          \* ghost: round at which Update last switched the epoch (constructor: EpochStartRound)
           how,           \* ghost: what ForceEpochStart did since then: "none" "refused" "kept" "clamped" "wrapped"
+          meta,          \* trigger.epochStartMeta: [ok |-> a start-of-epoch block of this epoch was processed,
+                         \*   prev |-> its EpochStart.Economics.PrevEpochStartRound]
           hist
 
-cvars == <<rpe, min, epoch, cesr, pesr, cur, isStart, next, trig, how>>
-vars  == <<rpe, min, epoch, cesr, pesr, cur, isStart, next, trig, how, hist>>
+cvars == <<rpe, min, epoch, cesr, pesr, cur, isStart, next, trig, how, meta>>
+vars  == <<rpe, min, epoch, cesr, pesr, cur, isStart, next, trig, how, meta, hist>>
 
 Disabled == W - 1                      \* disabledRoundForForceEpochStart
 MinNonce == 4                          \* minimumNonceToStartEpoch
@@ -54,7 +58,7 @@ UAdd(a, b) == (a + b) % W              \* uint64 addition
 USub(a, b) == (a - b + W) % W          \* uint64 subtraction (wraps)
 
 S == [epoch |-> epoch, cesr |-> cesr, pesr |-> pesr, cur |-> cur, isStart |-> isStart, next |-> next,
-      trig |-> trig, how |-> how]
+      trig |-> trig, how |-> how, meta |-> meta]
 
 -----------------------------------------------------------------------------
 (* the methods, statement by statement *)
@@ -81,13 +85,15 @@ ForceF(s, r, mode) ==
             ELSE [s EXCEPT !.next = r, !.how = IF r < s.cesr THEN "wrapped" ELSE "kept"]
 
 \* func (t *trigger) SetProcessed(header, body) with a start-of-epoch metablock (round hr, epoch he)
-SetProcessedF(s, hr, he) ==
-    [s EXCEPT !.cesr = hr, !.epoch = he, !.isStart = FALSE, !.cur = hr]
+\* (economics.go writes the round of the previous start-of-epoch block into it: prev)
+SetProcessedF(s, hr, he, prev) ==
+    [s EXCEPT !.cesr = hr, !.epoch = he, !.isStart = FALSE, !.cur = hr, !.meta = [ok |-> TRUE, prev |-> prev]]
 
 \* func (t *trigger) revert(epochStartMeta) reached through RevertStateToBlock(header of round hr):
 \* back to the previous epoch, whose start round is read from the start-of-epoch block being reverted
-RevertF(s, hr, prevStart) ==
-    [s EXCEPT !.cesr = prevStart, !.epoch = s.epoch - 1, !.isStart = FALSE, !.cur = hr, !.trig = prevStart]
+RevertF(s, hr) ==
+    [s EXCEPT !.cesr = s.meta.prev, !.epoch = s.epoch - 1, !.isStart = FALSE, !.cur = hr, !.trig = s.meta.prev,
+              !.meta = [ok |-> FALSE, prev |-> 0]]
 
 -----------------------------------------------------------------------------
 (* C34 as a predicate on one step (pre-state s, call a with arguments in, post-state t).           *)
@@ -110,7 +116,7 @@ Rec(a, in, s, t) ==
 
 Set(t) ==
     /\ epoch' = t.epoch /\ cesr' = t.cesr /\ pesr' = t.pesr /\ cur' = t.cur /\ isStart' = t.isStart
-    /\ next' = t.next /\ trig' = t.trig /\ how' = t.how
+    /\ next' = t.next /\ trig' = t.trig /\ how' = t.how /\ meta' = t.meta
     /\ UNCHANGED <<rpe, min>>
 
 -----------------------------------------------------------------------------
@@ -118,7 +124,8 @@ Init ==
     /\ rpe \in RPEs /\ min \in Mins /\ min <= rpe
     /\ epoch \in StartEpochs /\ cesr \in StartRounds /\ pesr = cesr /\ cur = cesr
     /\ isStart = FALSE /\ next = Disabled /\ trig = cesr /\ how = "none"
-    /\ hist = <<[a |-> "New", in |-> [rpe |-> rpe, min |-> min, start |-> cesr, epoch |-> epoch],
+    /\ meta = [ok |-> FALSE, prev |-> 0]
+    /\ hist = <<[a |-> "New", in |-> [rpe |-> rpe, min |-> min, start |-> cesr, epoch |-> epoch, w |-> W],
                  out |-> [viol |-> {}, how |-> "none"],
                  st |-> [epoch |-> epoch, isStart |-> FALSE, cesr |-> cesr]]>>
 
@@ -133,25 +140,28 @@ Force(r, mode) ==
 \* the start-of-epoch block is the block of the current round and carries the new epoch
 SetProcessed(hr, he) ==
     /\ isStart /\ hr = cur /\ he = epoch
-    /\ LET t == SetProcessedF(S, hr, he) IN
-       Set(t) /\ hist' = Log(hist, Rec("SetProcessed", [r |-> hr, e |-> he], S, t))
+    /\ LET t == SetProcessedF(S, hr, he, pesr) IN
+       Set(t) /\ hist' = Log(hist, Rec("SetProcessed", [r |-> hr, e |-> he, prev |-> pesr], S, t))
 
 \* SetProcessed with an ordinary block does nothing
 SetProcessedOther ==
     /\ Set(S) /\ hist' = Log(hist, Rec("SetProcessedOther", [r |-> cur], S, S))
 
 \* the start-of-epoch block that was just processed is rolled back (RevertStateToBlock with its parent)
+\* (hr = round of the parent block; a later start-of-epoch block is not rolled back before it is processed)
 Revert(hr) ==
-    /\ ~isStart /\ epoch > 0 /\ cur = cesr /\ how = "none" /\ next = Disabled /\ pesr < cesr
-    /\ hr = cur
-    /\ LET t == RevertF(S, hr, pesr) IN
-       Set(t) /\ hist' = Log(hist, Rec("Revert", [r |-> hr, prev |-> pesr], S, t))
+    /\ meta.ok /\ ~isStart /\ epoch > 0
+    /\ hr = (IF cesr > 0 THEN cesr - 1 ELSE 0)
+    /\ LET t == RevertF(S, hr) IN
+       Set(t) /\ hist' = Log(hist, Rec("Revert", [r |-> hr, prev |-> meta.prev], S, t))
 
 Next ==
-    \/ \E r \in 0..MaxRound, n \in Nonces : r <= cur + MaxSkip /\ Update(r, n)
-    \/ \E r \in ForceRounds, m \in ForceModes : Force(r, m)
-    \/ SetProcessed(cur, epoch)
-    \/ SetProcessedOther
+    /\ epoch < MaxEpoch
+    /\ \/ \E r \in 0..MaxRound, n \in Nonces : r <= cur + MaxSkip /\ Update(r, n)
+       \/ \E r \in ForceRounds, m \in ForceModes : Force(r, m)
+       \/ SetProcessed(cur, epoch)
+       \/ SetProcessedOther
+       \/ Revert(IF cesr > 0 THEN cesr - 1 ELSE 0)
 
 Spec == Init /\ [][Next]_vars
 
